@@ -137,6 +137,41 @@ class PathFinder:
             out.append((("isnone", a.name, nm), False))
         return out
 
+    def _known_at(self, start: Node) -> list[tuple[Fact, bool]]:
+        """Facts that hold on entry of ``start`` whatever path led there: a local whose reaching
+        definitions are all assignments of constants of the same truthiness / None-ness."""
+        out: list[tuple[Fact, bool]] = []
+        try:
+            names = list(self.df.locals)
+        except Exception:  # noqa: BLE001
+            return out
+        for v in names:
+            try:
+                defs = self.df.reaching(start, v)
+            except Exception:  # noqa: BLE001
+                continue
+            if not defs or len(defs) > 4:
+                continue
+            vals = []
+            for d in defs:
+                if d.kind == "assign" and not d.path and isinstance(d.value, ast.Constant):
+                    vals.append(d.value.value)
+                else:
+                    vals = None
+                    break
+            if not vals:
+                continue
+            nm = frozenset([v])
+            if all(x is None for x in vals):
+                out.append((("isnone", v, nm), True))
+            elif all(x is not None for x in vals):
+                out.append((("isnone", v, nm), False))
+                if all(bool(x) for x in vals):
+                    out.append((("truthy", v, nm), True))
+                elif all(not bool(x) for x in vals):
+                    out.append((("truthy", v, nm), False))
+        return out
+
     @staticmethod
     def _merge(facts: dict, new: list[tuple[Fact, bool]]) -> dict | None:
         out = dict(facts)
@@ -162,7 +197,9 @@ class PathFinder:
         max_states: int = 200000,
         goal_at_start: bool = False,
     ) -> list[Node] | None:
-        init = self._merge({}, start_facts or [])
+        init = self._merge({}, list(start_facts or []) + self._known_at(start))
+        if init is None:
+            init = self._merge({}, start_facts or [])
         if init is None:
             return None
         if goal_at_start and goal(start):
@@ -197,7 +234,18 @@ class PathFinder:
                 facts2 = nf
             else:
                 facts2 = facts
-            facts3 = self._merge(facts2, self._assign_facts(n))
+            new_facts = self._assign_facts(n)
+            # `x = y`: x is None / truthy exactly when y is (copy of a tracked name)
+            a_ = n.ast
+            if n.kind == "stmt" and isinstance(a_, (ast.Assign, ast.AnnAssign)) and isinstance(getattr(a_, "value", None), ast.Name):
+                tgts = a_.targets if isinstance(a_, ast.Assign) else [a_.target]
+                for t_ in tgts:
+                    if isinstance(t_, ast.Name) and t_.id != a_.value.id:
+                        for kind_ in ("isnone", "truthy"):
+                            got = facts.get((kind_, a_.value.id))
+                            if got is not None:
+                                new_facts = list(new_facts) + [((kind_, t_.id, frozenset([t_.id])), got[0])]
+            facts3 = self._merge(facts2, new_facts)
             if facts3 is None:
                 facts3 = facts2
             for m, label in n.succ:
